@@ -1,7 +1,7 @@
 #!/bin/bash
 # usage: try_tree.sh <dir> [config]  — analyse a directory holding a coraza tree; print reports not in known_findings.json
 D=$1; CFG=${2:-default}
-/verif/bin/czcheck analyse -repo $D -config $CFG > /tmp/.try_tree.$$.json 2>/dev/null
+${CZBIN:-/verif/bin/czcheck} analyse -repo $D -config $CFG > /tmp/.try_tree.$$.json 2>/dev/null
 python3 - /tmp/.try_tree.$$.json <<'PY'
 import json,sys
 r=json.load(open(sys.argv[1]))
